@@ -36,6 +36,7 @@ type GenSeamReport struct {
 	// goroutines then stay real and only repetition can expose their scheduling
 	GoroutinesOwned bool
 	GoroutinesNote  string
+	SharedProbes    int // files in which shared-state accesses were probed (only when moq has go statements)
 }
 
 // SeamGenerator rewrites the scratch copy of moq rooted at dir (type-driven,
@@ -56,6 +57,21 @@ func SeamGenerator(dir string, env []string, memoLoad bool, ownGoroutines bool) 
 		return nil, err
 	}
 	rep.GoroutinesOwned = ownGoroutines
+	hasGo := false
+	modPkgs := map[*types.Package]bool{}
+	for _, p := range pkgs {
+		modPkgs[p.Types] = true
+		for i, f := range p.Syntax {
+			if i < len(p.CompiledGoFiles) && strings.HasPrefix(p.CompiledGoFiles[i], dir) && !strings.HasSuffix(p.CompiledGoFiles[i], "_test.go") {
+				ast.Inspect(f, func(n ast.Node) bool {
+					if _, ok := n.(*ast.GoStmt); ok {
+						hasGo = true
+					}
+					return true
+				})
+			}
+		}
+	}
 	if ownGoroutines {
 		for _, p := range pkgs {
 			for i, f := range p.Syntax {
@@ -98,6 +114,14 @@ func SeamGenerator(dir string, env []string, memoLoad bool, ownGoroutines bool) 
 				continue
 			}
 			rel, _ := filepath.Rel(dir, path)
+			if rep.GoroutinesOwned && hasGo {
+				// moq starts goroutines: every access to its package-level
+				// variables and to fields of its own structs becomes a sim
+				// point, so that unsynchronised sharing can interleave
+				if probeShared(p, f, modPkgs) {
+					rep.SharedProbes++
+				}
+			}
 			n := 0
 			var unsupported error
 			dirty, usesHook, usesLoad, usesRt := false, false, false, false
@@ -161,8 +185,11 @@ func SeamGenerator(dir string, env []string, memoLoad bool, ownGoroutines bool) 
 			if unsupported != nil {
 				return nil, &ErrUnsupported{What: unsupported.Error()}
 			}
-			if !dirty {
+			if !dirty && !(rep.GoroutinesOwned && hasGo) {
 				continue
+			}
+			if rep.GoroutinesOwned && hasGo && usesProbe(f) {
+				usesRt = true
 			}
 			if usesHook {
 				astutil.AddNamedImport(p.Fset, f, simhookName, SimhookPath)
@@ -240,4 +267,125 @@ func rewriteRange(t *ast.RangeStmt, n int, site string) ast.Stmt {
 		&ast.AssignStmt{Lhs: []ast.Expr{m}, Tok: token.DEFINE, Rhs: []ast.Expr{t.X}},
 		loop,
 	}}
+}
+
+func usesProbe(f *ast.File) bool {
+	found := false
+	ast.Inspect(f, func(n ast.Node) bool {
+		if sel, ok := n.(*ast.SelectorExpr); ok {
+			if id, ok := sel.X.(*ast.Ident); ok && id.Name == simrtName && (sel.Sel.Name == "RAny" || sel.Sel.Name == "WAny") {
+				found = true
+			}
+		}
+		return !found
+	})
+	return found
+}
+
+// probeShared inserts, before every simple statement of f, a probe for each
+// package-level variable of the module and each addressable field of a
+// module-declared struct that the statement reads or writes.
+func probeShared(p *packages.Package, f *ast.File, modPkgs map[*types.Package]bool) bool {
+	info := p.TypesInfo
+	any := false
+	type acc struct {
+		expr  ast.Expr
+		label string
+		write bool
+	}
+	var scan func(n ast.Node, write bool, out *[]acc)
+	scan = func(n ast.Node, write bool, out *[]acc) {
+		if n == nil {
+			return
+		}
+		ast.Inspect(n, func(m ast.Node) bool {
+			switch t := m.(type) {
+			case *ast.FuncLit:
+				return false
+			case *ast.SelectorExpr:
+				if sel, ok := info.Selections[t]; ok && sel.Kind() == types.FieldVal {
+					if v, ok := sel.Obj().(*types.Var); ok && v.Pkg() != nil && modPkgs[v.Pkg()] {
+						if tv, ok := info.Types[t]; ok && tv.Addressable() {
+							*out = append(*out, acc{t, "field " + v.Name(), write && m == n})
+						}
+					}
+				}
+			case *ast.Ident:
+				if v, ok := info.Uses[t].(*types.Var); ok && !v.IsField() && v.Pkg() != nil && modPkgs[v.Pkg()] && v.Parent() == v.Pkg().Scope() {
+					*out = append(*out, acc{t, "var " + v.Pkg().Name() + "." + v.Name(), write && m == n})
+				}
+			}
+			return true
+		})
+	}
+	astutil.Apply(f, func(c *astutil.Cursor) bool {
+		st, ok := c.Node().(ast.Stmt)
+		if !ok || c.Index() < 0 {
+			return true
+		}
+		var as []acc
+		switch t := st.(type) {
+		case *ast.AssignStmt:
+			for _, r := range t.Rhs {
+				scan(r, false, &as)
+			}
+			for _, l := range t.Lhs {
+				scan(l, true, &as)
+			}
+		case *ast.ExprStmt:
+			scan(t.X, false, &as)
+		case *ast.IncDecStmt:
+			scan(t.X, true, &as)
+		case *ast.ReturnStmt:
+			for _, r := range t.Results {
+				scan(r, false, &as)
+			}
+		case *ast.IfStmt:
+			scan(t.Cond, false, &as)
+		case *ast.ForStmt:
+			if t.Cond != nil {
+				scan(t.Cond, false, &as)
+			}
+		case *ast.RangeStmt:
+			scan(t.X, false, &as)
+		case *ast.SwitchStmt:
+			if t.Tag != nil {
+				scan(t.Tag, false, &as)
+			}
+		case *ast.DeferStmt:
+			for _, a := range t.Call.Args {
+				scan(a, false, &as)
+			}
+		case *ast.GoStmt:
+			for _, a := range t.Call.Args {
+				scan(a, false, &as)
+			}
+		}
+		seen := map[string]bool{}
+		for _, a := range as {
+			var buf bytes.Buffer
+			format.Node(&buf, p.Fset, a.expr)
+			key := buf.String()
+			fn := "RAny"
+			if a.write {
+				fn = "WAny"
+				key = "w:" + key
+			}
+			if seen[key] {
+				continue
+			}
+			seen[key] = true
+			any = true
+			c.InsertBefore(&ast.ExprStmt{X: &ast.CallExpr{
+				Fun: &ast.SelectorExpr{X: ast.NewIdent(simrtName), Sel: ast.NewIdent(fn)},
+				Args: []ast.Expr{
+					&ast.FuncLit{Type: &ast.FuncType{Params: &ast.FieldList{}, Results: &ast.FieldList{List: []*ast.Field{{Type: ast.NewIdent("any")}}}},
+						Body: &ast.BlockStmt{List: []ast.Stmt{&ast.ReturnStmt{Results: []ast.Expr{&ast.UnaryExpr{Op: token.AND, X: a.expr}}}}}},
+					&ast.BasicLit{Kind: token.STRING, Value: strconv.Quote(a.label)},
+				},
+			}})
+		}
+		return true
+	}, nil)
+	return any
 }
